@@ -216,7 +216,11 @@ fn gen_group(r: &mut Rng, nodes: usize) -> GroupSpec {
             g.user_admins.push(k);
         }
     }
-    let nr = 1 + r.usize(3);
+    // one group in six has members but no right at all (a read-only group), one in six no user
+    let nr = if r.chance(1, 6) { 0 } else { 1 + r.usize(3) };
+    if r.chance(1, 6) {
+        g.users.clear();
+    }
     for _ in 0..nr {
         let all = r.chance(1, 3);
         let own = r.chance(2, 3);
@@ -517,6 +521,31 @@ pub fn directed(property: &str) -> Vec<Trace> {
                     Step::AddUser { who: 0, room: 0, group: 0, key: 1, enabled: true, dt: DAY_MS, nb: false },
                     Step::AddRight { who: 0, room: 0, group: 0, right: RightSpec { ent: 0, own: false, all: false }, dt: DAY_MS, nb: false },
                     Step::LateJoin,
+                    Step::Grid,
+                ],
+            ));
+            out.push(mk(
+                "C10 a group with members and no right, a group with rights and no member, a group with only a user admin: live, restarted, imported",
+                3,
+                vec![
+                    Step::NewRoom {
+                        who: 0,
+                        room: 0,
+                        admins: vec![0],
+                        groups: vec![
+                            GroupSpec { users: vec![1], user_admins: vec![], rights: vec![] },
+                            GroupSpec { users: vec![], user_admins: vec![], rights: vec![RightSpec { ent: 0, own: true, all: false }] },
+                            GroupSpec { users: vec![], user_admins: vec![2], rights: vec![] },
+                        ],
+                        dt: 20,
+                    },
+                    Step::Grid,
+                    Step::Restart { node: 0 },
+                    Step::Grid,
+                    Step::Restart { node: 1 },
+                    Step::Grid,
+                    Step::LateJoin,
+                    Step::AddRight { who: 0, room: 0, group: 0, right: RightSpec { ent: 0, own: true, all: false }, dt: 3_600_000, nb: false },
                     Step::Grid,
                 ],
             ));
